@@ -30,6 +30,7 @@ execution (`C07_assignment_rhs`).  The tie to the code is decided per run by `ch
 -/
 import Circomspect.Lemmas.DegreeLemmas
 import Circomspect.Lemmas.PathDegrees
+import Circomspect.Lemmas.PathValues
 
 namespace Circomspect.C07
 open Circomspect Gen Algebra Propagate Ir
@@ -147,5 +148,51 @@ example : ∃ δ, ReachD (programOf demo) demo.params demo.isFunction δ ∧ δ 
   · simp [DState.set, δ₀, vin, vx]
   · simp [DState.set]
 end NonVacuity
+
+/-! ### the reading across executions fails (known finding `F-C07-control-dependence`)
+
+`var x = 0; if (in == 1) { x = 1; } out <-- x`: after propagation the read of `x` behind the join is claimed `constant`
+(range `(0, 0)`).  `C07_path_sound` holds for it — in each execution the phi has the degree of one of its arguments, 0 — but
+the value of that read is 0 in one execution and 1 in another, with the same (empty) parameter valuation: as a function of the
+signal `in` it is not a constant polynomial, and the compiler rejects `out <== x`.  The property at full strength (a polynomial
+in the signals, over all executions at once) is therefore false of the model and of the code; the per-execution statement above
+is the part that is proved. -/
+section ControlDependence
+private def cin : VName := ⟨"in", none, none⟩
+private def cout : VName := ⟨"out", none, none⟩
+private def x0 : VName := ⟨"x", none, some 0⟩
+private def x1 : VName := ⟨"x", none, some 1⟩
+private def x2 : VName := ⟨"x", none, some 2⟩
+private def cd : Cfg := { isFunction := false, params := [], blocks := [
+  { stmts := [.decl [cin] .signal [], .decl [cout] .signal [], .decl [x0, x1, x2] .local_ [],
+              .sub {} x0 (some .local_) "=" (.num {} 0),
+              .ite (.infix {} "eq" (.var {} cin) (.num {} 1))] },
+  { stmts := [.sub {} x1 (some .local_) "=" (.num {} 1)], npreds := 1 },
+  { stmts := [.sub {} x2 (some .local_) "=" (.phi {} [x0, x1]),
+              .sub {} cout (some .signal) "<--" (.var {} x2)], npreds := 2 }] }
+
+/-- the claim: the right-hand side `x` of `out <-- x` is annotated `constant` -/
+theorem C07_control_dependence_claim :
+    ((stmtsOf (degLoop 30 (degInit cd) cd.blocks).1).filterMap
+      (fun s => match s with | .sub _ v _ _ rhe => if v = cout then some rhe.ann.deg else none | _ => none)) = [some (0, 0)] := by
+  decide
+
+/-- ... and two executions with the same parameters give that read different values -/
+theorem C07_reading_across_executions_fails :
+    (∃ σ, Reach 101 (stmtsOf cd.blocks) σ ∧ σ x2 = some (.fe 0)) ∧ (∃ σ, Reach 101 (stmtsOf cd.blocks) σ ∧ σ x2 = some (.fe 1)) := by
+  let σ₀ : State := fun _ => none
+  have h0 : Reach 101 (stmtsOf cd.blocks) σ₀ := .init _ (fun _ _ _ _ => rfl)
+  constructor
+  · have h1 := Reach.step _ _ h0 (Step.assign σ₀ {} x0 (some .local_) "=" (.num {} 0) (fun _ => none) (by simp [stmtsOf, cd]) rfl)
+    have h2 := Reach.step _ _ h1 (Step.phi _ {} x2 (some .local_) "=" {} [x0, x1] x0 (by simp [stmtsOf, cd]) (by simp))
+    refine ⟨_, h2, ?_⟩
+    simp only [State.set_same]
+    decide
+  · have h1 := Reach.step _ _ h0 (Step.assign σ₀ {} x1 (some .local_) "=" (.num {} 1) (fun _ => none) (by simp [stmtsOf, cd]) rfl)
+    have h2 := Reach.step _ _ h1 (Step.phi _ {} x2 (some .local_) "=" {} [x0, x1] x1 (by simp [stmtsOf, cd]) (by simp))
+    refine ⟨_, h2, ?_⟩
+    simp only [State.set_same]
+    decide
+end ControlDependence
 
 end Circomspect.C07
